@@ -471,8 +471,24 @@ Definition admitted (en : env) (e : experiment) : Prop := validate en (set_defau
 (* experiment_controller.go (deref of ParallelTrialCount), status_util.go / suggestionclient.go (Objective.), util/suggestion.go and
    composer.go (Algorithm.), generator.go and experiment_controller_util.go (TrialTemplate., TrialSource.ConfigMap. when TrialSpec
    is nil, deref of MetricsCollectorSpec), trial_controller.go and pod/inject_webhook.go (MetricsCollector.Collector.Kind),
-   pod/utils.go getMountPath (Source.FileSystemPath.Path for File and TensorFlowEvent collectors). *)
+   pod/utils.go getMountPath (Source.FileSystemPath.Path for File and TensorFlowEvent collectors),
+   pod/inject_webhook.go (Collector.CustomCollector for the Custom kind). *)
 Definition present {A} (o : option A) : bool := match o with Some _ => true | None => false end.
+
+Definition derefs_mc (e : experiment) : bool :=
+  match e_mc e with
+  | Some mc =>
+      match mc_collector mc with
+      | Some col =>
+          match c_kind col with
+          | CFile | CTfEvent => match mc_source mc with Some s => present (s_fs s) | None => false end
+          | CCustom => c_custom col     (* pod/inject_webhook.go: the custom collector container is dereferenced when injected *)
+          | _ => true
+          end
+      | None => false
+      end
+  | None => false
+  end.
 
 Definition derefs_ok (e : experiment) : bool :=
   present (e_par e) && present (e_objective e) && present (e_algorithm e) &&
@@ -480,18 +496,7 @@ Definition derefs_ok (e : experiment) : bool :=
   | Some t => present (t_params t) && (present (t_spec t) || present (t_cm t))
   | None => false
   end &&
-  match e_mc e with
-  | Some mc =>
-      match mc_collector mc with
-      | Some col =>
-          match c_kind col with
-          | CFile | CTfEvent => match mc_source mc with Some s => present (s_fs s) | None => false end
-          | _ => true
-          end
-      | None => false
-      end
-  | None => false
-  end.
+  derefs_mc e.
 
 Definition budget_ok (e : experiment) : bool :=
   match e_par e with
